@@ -11,6 +11,7 @@ from ..ref import deflate_peer
 from .c04 import HS_PLAIN, HS_DEFLATE, HS_LEN
 
 LEVEL = 'exploration'
+TECHNIQUE = 'runtime monitoring: exhaustive product of the real UTF-8 validator with an ABNF-generated automaton; end-to-end verdict and fail-fast read-offset oracle'
 BUDGET_S = {'quick': 30, 'thorough': 240}
 REQUIRED = {'all': ['dfa.transitions_compared', 'e2e.verdicts_compared', 'e2e.failfast_checked',
                     'e2e.with_control_between_fragments']}
